@@ -54,8 +54,9 @@ def _alarm(signum, frame):
 
 class World:
     """Per-case instrumentation state."""
-    def __init__(self, case):
+    def __init__(self, case, salt=0):
         self.case = case
+        self.salt = salt              # tokens of different procedures of a sequence never coincide
         self.side = 0                 # 0 = initiator/central stack executing, 1 = responder/peripheral
         self.table = {}               # bytes -> term
         self.rnd_count = {}           # (side, purpose) -> n
@@ -66,7 +67,7 @@ class World:
         self.literals = {}            # well-known literal byte strings -> nothing (resolved in Coq)
 
     def tok(self, term, n):
-        h = bytearray(hashlib.sha256(json.dumps(term, sort_keys=True).encode()).digest()[:n])
+        h = bytearray(hashlib.sha256(("%d|" % self.salt + json.dumps(term, sort_keys=True)).encode()).digest()[:n])
         if h[0] == 0:
             h[0] = 0xA5
         if h[-1] == 0:
@@ -109,6 +110,9 @@ def p_generate_random_value(bits):
             purpose = PURPOSE[f.f_code.co_name]
             break
         f = f.f_back
+    for sd, pp, byte in W.case.get("bv", []):      # boundary value forced for this item (not a token)
+        if sd == W.side and pp == purpose:
+            return bytes([byte]) * int(bits / 8)
     key = (W.side, purpose)
     n = W.rnd_count.get(key, 0)
     W.rnd_count[key] = n + 1
@@ -157,6 +161,8 @@ def p_randint_smp(a, b):
     # generate_legacy_ediv
     if W.case.get("rmax"):
         return b
+    if W.case.get("ediv") is not None:
+        return W.case["ediv"][W.side]
     return (0x1234 + 0x1111 * W.side) % (b + 1)
 
 
@@ -164,7 +170,7 @@ def p_randint_llm(a, b):
     if W.case.get("rmax"):
         v = b
     else:
-        h = hashlib.sha256(("ll%d-%d" % (W.side, b)).encode()).digest()
+        h = hashlib.sha256(("ll%d-%d-%d" % (W.side, b, W.salt)).encode()).digest()
         v = int.from_bytes(h[:8], "big") % b
     W.ll_rand[W.side]["skd" if b > 0x100000000 else "iv"] = v
     return v
@@ -230,7 +236,7 @@ class Conn:
         return True
 
     def set_encryption(self, conn_handle=None, enabled=True, ll_key=None, ll_iv=None, key=None, rand=None, ediv=None):
-        self.enc.append({"enabled": bool(enabled), "ll_key": W.resolve(ll_key), "ll_iv": bytes(ll_iv).hex(),
+        self.enc.append({"enabled": bool(enabled), "handle": conn_handle, "ll_key": W.resolve(ll_key), "ll_iv": bytes(ll_iv).hex(),
                          "key": W.resolve(key), "rand": rand, "ediv": ediv})
         return True
 
@@ -238,12 +244,12 @@ class Conn:
         pass
 
 
-def deliver(stack, raw):
+def deliver(stack, raw, h):
     pkt = BTLE_DATA(raw)
     if pkt.LLID == 3:
-        stack.on_ctl_pdu(1, pkt)
+        stack.on_ctl_pdu(h, pkt)
     else:
-        stack.on_data_pdu(1, pkt)
+        stack.on_data_pdu(h, pkt)
 
 
 def mkpairing(p, side):
@@ -285,95 +291,121 @@ def sget(st, name):
         return None
 
 
+_L2CAP_SEQ = [100]
+
+
 def run_case(case):
+    """One case = one pairing on fresh stacks, or ("seq") several pairings through the SAME two stacks:
+    step mode "new" = on a new connection handle, "same" = the current connection is paired again."""
     global W
-    W = World(case)
+    from whad.ble.stack.l2cap import L2CAPLayer
+    steps = case["seq"] if "seq" in case else [dict(case, mode="new")]
     cc, cp = Conn(), Conn()
     sc, sp = BleStack(cc), BleStack(cp)
     a_i = BDAddress(ADDR_I[0], random=ADDR_I[1])
     a_r = BDAddress(ADDR_R[0], random=ADDR_R[1])
-    # real DH values for the fixed key pairs (to recognise the shared secret and the public X coordinates)
     k0, pk0 = REAL_P256(PRIV[0])
     k1, pk1 = REAL_P256(PRIV[1])
-    W.table[REAL_DH(k0, pk1)] = ["Dh"]
-    W.table[bytes.fromhex("{:064x}".format(pk0.public_numbers().x))] = ["Pkx", 0]
-    W.table[bytes.fromhex("{:064x}".format(pk1.public_numbers().x))] = ["Pkx", 1]
-    W.side = 0
-    sc.on_connection(1, a_i, a_r)
-    W.side = 1
-    sp.on_connection(1, a_r, a_i)
-    smp_i, smp_r = cc.connection.smp, cp.connection.smp
-    smp_i.set_security_database(CryptographicDatabase())
-    smp_r.set_security_database(CryptographicDatabase())
-    smp_r.pairing_parameters = mkpairing(case["r"], 1)
-    smp_r.set_responder_role()
-    excs = [[], []]
-    nmsg, timeout = 0, False
-    signal.signal(signal.SIGALRM, _alarm)
-    signal.alarm(int(case.get("watchdog", 10)))
-    try:
-        W.side = 0
+    dbs = [CryptographicDatabase(), CryptographicDatabase()]
+    h, smp_i, smp_r = 0, None, None
+    runs = []
+    for k, step in enumerate(steps):
+        W = World(step, salt=k)
+        # real DH values for the fixed key pairs (to recognise the shared secret and the public X coordinates)
+        W.table[REAL_DH(k0, pk1)] = ["Dh"]
+        W.table[bytes.fromhex("{:064x}".format(pk0.public_numbers().x))] = ["Pkx", 0]
+        W.table[bytes.fromhex("{:064x}".format(pk1.public_numbers().x))] = ["Pkx", 1]
+        if step.get("mode", "new") == "new" or smp_i is None:
+            h += 1
+            for side, stack in ((0, sc), (1, sp)):
+                W.side = side
+                # contextual layer names: Layer.instantiate never writes INSTCOUNT back (every instance after the
+                # second is named l2cap#1); give each L2CAP instance its own name from outside
+                _L2CAP_SEQ[0] += 1
+                L2CAPLayer.INSTCOUNT = _L2CAP_SEQ[0]
+                if side == 0:
+                    stack.on_connection(h, a_i, a_r)
+                else:
+                    stack.on_connection(h, a_r, a_i)
+            smp_i, smp_r = cc.connection.smp, cp.connection.smp
+            smp_i.set_security_database(dbs[0])
+            smp_r.set_security_database(dbs[1])
+            smp_r.set_responder_role()
+        smp_r.pairing_parameters = mkpairing(step["r"], 1)
+        db0 = [len(getattr(d, "_CryptographicDatabase__entries")) for d in dbs]
+        enc0 = [len(cc.enc), len(cp.enc)]
+        excs = [[], []]
+        nmsg, timeout = 0, False
+        signal.signal(signal.SIGALRM, _alarm)
+        signal.alarm(int(step.get("watchdog", 10)))
         try:
-            smp_i.initiate_pairing(parameters=mkpairing(case["i"], 0))
+            W.side = 0
+            try:
+                smp_i.initiate_pairing(parameters=mkpairing(step["i"], 0))
+            except Watchdog:
+                raise
+            except Exception as e:   # noqa
+                excs[0].append(exc_info(e))
+            while (cc.out or cp.out) and nmsg < 4000:
+                for src, dst_stack, dst in ((cc, sp, 1), (cp, sc, 0)):
+                    if src.out:
+                        raw = src.out.popleft()
+                        nmsg += 1
+                        W.side = dst
+                        try:
+                            deliver(dst_stack, raw, h)
+                        except Watchdog:
+                            raise
+                        except Exception as e:   # noqa
+                            excs[dst].append(exc_info(e))
+            if cc.out or cp.out:
+                timeout = True
         except Watchdog:
-            raise
-        except Exception as e:   # noqa
-            excs[0].append(exc_info(e))
-        while (cc.out or cp.out) and nmsg < 4000:
-            for src, dst_stack, dst in ((cc, sp, 1), (cp, sc, 0)):
-                if src.out:
-                    raw = src.out.popleft()
-                    nmsg += 1
-                    W.side = dst
-                    try:
-                        deliver(dst_stack, raw)
-                    except Watchdog:
-                        raise
-                    except Exception as e:   # noqa
-                        excs[dst].append(exc_info(e))
-        if cc.out or cp.out:
             timeout = True
-    except Watchdog:
-        timeout = True
-    finally:
-        signal.alarm(0)
-    sides = []
-    for side, (smp, conn, stack) in enumerate(((smp_i, cc, sc), (smp_r, cp, sp))):
-        st = smp.state
-        W.side = side
-        llc = stack.get_layer('ll').state.connections.get(1, {})
-        d = {"state": sget(st, "state"), "fail": sget(st, "last_failure"),
-             "exc": excs[side][:3], "method": sget(st, "method"),
-             "tk": W.resolve(sget(st, "tk")), "stk": W.resolve(sget(st, "stk")), "ltk": W.resolve(sget(st, "ltk")),
-             "rand": W.resolve(sget(st, "rand")), "ediv": sget(st, "ediv"),
-             "irk": W.resolve(sget(st, "irk")), "csrk": W.resolve(sget(st, "csrk")),
-             "done": bool(smp.is_pairing_done()), "failed": bool(sget(st, "last_failure") is not None),
-             "enc": conn.enc, "db": db_dump(smp.security_database),
-             "ll_key": W.resolve(llc.get("encryption_key")), "encrypted": bool(llc.get("encrypted")),
-             "ll_rand": W.ll_rand[side],
-             "shown": W.shown[side][:50], "asked": W.asked[side][:50],
-             "trace": [t[0] for t in W.trace[side]]}
-        sides.append(d)
-    preq = next((t[1] for t in W.trace[0] if t[0] == 1), None)
-    pres = next((t[1] for t in W.trace[1] if t[0] == 2), None)
-    wire = []
-    for side in (0, 1):
-        ks = {}
-        for op, hx in W.trace[side]:
-            b = bytes.fromhex(hx)[1:]
-            if op == 6:
-                ks["ltk"] = W.resolve(b[::-1])
-            elif op == 7:
-                ks["ediv"] = b[0] | (b[1] << 8)
-                ks["rand"] = W.resolve(b[2:][::-1])
-            elif op == 8:
-                ks["irk"] = W.resolve(b[::-1])
-            elif op == 9:
-                ks["addr"] = b.hex()
-            elif op == 10:
-                ks["csrk"] = W.resolve(b[::-1])
-        wire.append(ks)
-    return {"sides": sides, "preq": preq, "pres": pres, "wire": wire, "nmsg": nmsg, "timeout": timeout}
+        finally:
+            signal.alarm(0)
+        cc.out.clear()
+        cp.out.clear()
+        sides = []
+        for side, (smp, conn, stack) in enumerate(((smp_i, cc, sc), (smp_r, cp, sp))):
+            st = smp.state
+            W.side = side
+            llc = stack.get_layer('ll').state.connections.get(h, {})
+            d = {"state": sget(st, "state"), "fail": sget(st, "last_failure"),
+                 "exc": excs[side][:3], "method": sget(st, "method"),
+                 "tk": W.resolve(sget(st, "tk")), "stk": W.resolve(sget(st, "stk")), "ltk": W.resolve(sget(st, "ltk")),
+                 "rand": W.resolve(sget(st, "rand")), "ediv": sget(st, "ediv"),
+                 "irk": W.resolve(sget(st, "irk")), "csrk": W.resolve(sget(st, "csrk")),
+                 "done": bool(smp.is_pairing_done()), "failed": bool(sget(st, "last_failure") is not None),
+                 "enc": conn.enc[enc0[side]:], "db": db_dump(dbs[side])[db0[side]:],
+                 "ll_key": W.resolve(llc.get("encryption_key")), "encrypted": bool(llc.get("encrypted")),
+                 "ll_rand": W.ll_rand[side],
+                 "shown": W.shown[side][:50], "asked": W.asked[side][:50],
+                 "trace": [t[0] for t in W.trace[side]]}
+            sides.append(d)
+        preq = next((t[1] for t in W.trace[0] if t[0] == 1), None)
+        pres = next((t[1] for t in W.trace[1] if t[0] == 2), None)
+        wire = []
+        for side in (0, 1):
+            ks = {}
+            for op, hx in W.trace[side]:
+                b = bytes.fromhex(hx)[1:]
+                if op == 6:
+                    ks["ltk"] = W.resolve(b[::-1])
+                elif op == 7:
+                    ks["ediv"] = b[0] | (b[1] << 8)
+                    ks["rand"] = W.resolve(b[2:][::-1])
+                elif op == 8:
+                    ks["irk"] = W.resolve(b[::-1])
+                elif op == 9:
+                    ks["addr"] = b.hex()
+                elif op == 10:
+                    ks["csrk"] = W.resolve(b[::-1])
+            wire.append(ks)
+        runs.append({"sides": sides, "preq": preq, "pres": pres, "wire": wire, "nmsg": nmsg, "timeout": timeout, "handle": h})
+    if "seq" in case:
+        return {"runs": runs}
+    return runs[0]
 
 
 # ---------------------------------------------------------------------------
